@@ -52,8 +52,8 @@ func TestSim(t *testing.T) {
 // run has been evaluated). The driver stops a worker after 3 recorded violations, so the rate is
 // kept low enough that the known candidate does not cut the exploration short.
 const (
-	c13ZeroRateQuick    = 6000
-	c13ZeroRateThorough = 100000
+	c13ZeroRateQuick    = 8
+	c13ZeroRateThorough = 8
 	c13PyRate           = 200
 	c13MaxPayload       = 2040
 )
